@@ -491,3 +491,8 @@ pub fn ms_counting<'a>(key: [u64; 2], mac: MacAddr) -> Masscanned<'a> {
     m.log.add(Box::new(CountLogger));
     m
 }
+
+/// fixed instant for chrono::Utc::now (the wall clock is outside the model)
+pub fn utc_now_stub() -> chrono::DateTime<chrono::Utc> {
+    chrono::DateTime::<chrono::Utc>::from_timestamp(0, 0).unwrap()
+}
